@@ -168,4 +168,156 @@ theorem operator_ok (what : String) (m : ModelT) (codes : List Code) (all : List
     exact forall₂_some (filterMap_mapIdx all p.intermediates (fun g hg => hmem g (by
       unfold POp.operands; exact List.mem_append_right _ hg)))
 
+
+/-! ## one subgraph: `subgraphProblems` in projection form -/
+
+/-- the body of the fold over the operators in `subgraphProblems` -/
+def opStep (m : ModelT) (w : String) (acc : Rel × List Problem) (x : (POp × OperatorT) × Nat) : Rel × List Problem :=
+  let wo := s!"{w} operator {x.2}"
+  match lowerOp x.1.1 with
+  | none => (acc.1, acc.2 ++ [⟨"not-serialisable", wo⟩])
+  | some lg =>
+    let a := relList s!"{wo} inputs" acc.1 lg.inputs (optList x.1.2.inputs)
+    let b := relList s!"{wo} outputs" a.1 (lg.outputs.map some) (optList x.1.2.outputs)
+    let c := relList s!"{wo} intermediates" b.1 (lg.intermediates.map some) (optList x.1.2.intermediates)
+    (c.1, acc.2 ++ codeProblems wo m lg x.1.2 ++ a.2 ++ b.2 ++ c.2 ++
+      (if x.1.2.payload == lg.payload then [] else [⟨"option-payload", wo⟩]) ++
+      (if x.1.2.mutating == some [] && x.1.2.extra.isEmpty then [] else [⟨"operator-extra-fields", wo⟩]))
+
+def specOuts2 (ps : PSub) : List Nat :=
+  match ps.sg.originalOutputPositions with
+  | none => removeVirtual ps.sg.outputTensors ps.sg.virtualOutputs
+  | some pos => pos.filterMap ((removeVirtual ps.sg.outputTensors ps.sg.virtualOutputs)[·]?)
+
+def specOps (ps : PSub) : List POp := (clearVirtual ps.ops ps.sg.virtualOutputs).filter (!·.ignored)
+
+def relIn (k : Nat) (ps : PSub) (f : SubGraphT) : Rel × List Problem :=
+  relList s!"{s!"subgraph {k}"} inputs" [] (ps.sg.originalInputs.map some) (optList f.inputs)
+def relOut (k : Nat) (ps : PSub) (f : SubGraphT) : Rel × List Problem :=
+  relList s!"{s!"subgraph {k}"} outputs" (relIn k ps f).1 ((specOuts2 ps).map some) (optList f.outputs)
+def relOps (m : ModelT) (k : Nat) (ps : PSub) (f : SubGraphT) : Rel × List Problem :=
+  ((specOps ps).zip f.operators).zipIdx.foldl (opStep m s!"subgraph {k}") ((relOut k ps f).1, [])
+
+theorem subgraphProblems_fst (d : Desc) (m : ModelT) (k : Nat) (ps : PSub) (f : SubGraphT) :
+    (subgraphProblems d m k ps f).1 = (relOps m k ps f).1.eraseDups := rfl
+
+
+def sgP0 (k : Nat) (ps : PSub) (f : SubGraphT) : List Problem :=
+  (if f.operators.length == (specOps ps).length then [] else [⟨"operator-count", s!"{s!"subgraph {k}"}: graph {(specOps ps).length} file {f.operators.length}"⟩]) ++
+  (if f.name == some ps.sg.name then [] else [⟨"subgraph-name", s!"subgraph {k}"⟩])
+
+def sgP4 (d : Desc) (m : ModelT) (k : Nat) (f : SubGraphT) (r : Rel) : List Problem :=
+  r.flatMap fun (g, i) =>
+    match d.tensors[g]?, f.tensors[i]? with
+    | some gt, some ft => tensorProblems s!"{s!"subgraph {k}"} tensor {i} ({showName gt.name})" m gt ft
+    | none, _ => [⟨"graph-reference", s!"{s!"subgraph {k}"}: graph tensor {g}"⟩]
+    | _, none => [⟨"index-range", s!"{s!"subgraph {k}"}: file tensor {i} of {f.tensors.length}"⟩]
+
+def specPlaceholders (ps : PSub) : List Nat := (ps.ops.filter (·.placeholder)).flatMap fun o => o.outputs.filterMap id
+
+def sgP5 (d : Desc) (m : ModelT) (k : Nat) (ps : PSub) (f : SubGraphT) (r : Rel) : List Problem :=
+  (List.range f.tensors.length).flatMap fun i =>
+    if r.any (·.2 == i) then [] else
+    match f.tensors[i]? with
+    | none => []
+    | some ft =>
+      if (specPlaceholders ps).any fun g => match d.tensors[g]? with
+        | some gt => (tensorProblems "" m gt ft).isEmpty
+        | none => false
+      then [] else [⟨"unexplained-tensor", s!"{s!"subgraph {k}"} tensor {i}"⟩]
+
+theorem subgraphProblems_snd (d : Desc) (m : ModelT) (k : Nat) (ps : PSub) (f : SubGraphT) :
+    (subgraphProblems d m k ps f).2 = sgP0 k ps f ++ (relIn k ps f).2 ++ (relOut k ps f).2 ++ (relOps m k ps f).2 ++
+      oneToOne (relOps m k ps f).1.eraseDups ++ sgP4 d m k f (relOps m k ps f).1.eraseDups ++
+      sgP5 d m k ps f (relOps m k ps f).1.eraseDups := rfl
+
+
+/-! ## helper facts -/
+
+theorem foldl_inv_mem {α β : Type} (P : β → Prop) (Q : α → β → Prop) (f : β → α → β) :
+    ∀ (l : List α) (b : β), P b → (∀ b a, a ∈ l → P b → P (f b a) ∧ Q a (f b a)) →
+    (∀ b a a', a' ∈ l → P b → Q a b → Q a (f b a')) →
+    P (l.foldl f b) ∧ ∀ a ∈ l, Q a (l.foldl f b)
+  | [], b, hb, _, _ => ⟨hb, by simp⟩
+  | x :: l, b, hb, hstep, hmono => by
+    obtain ⟨h1, h2⟩ := hstep b x (List.mem_cons_self ..) hb
+    have hgen : ∀ (l' : List α) (b' : β), (∀ a ∈ l', a ∈ x :: l) → P b' → Q x b' → Q x (l'.foldl f b') := by
+      intro l'
+      induction l' with
+      | nil => intro b' _ _ hq; exact hq
+      | cons y l' ih =>
+        intro b' hsub hp hq
+        have hy : y ∈ x :: l := hsub y (List.mem_cons_self ..)
+        exact ih (f b' y) (fun a ha => hsub a (List.mem_cons_of_mem _ ha)) (hstep b' y hy hp).1 (hmono b' x y hy hp hq)
+    obtain ⟨i1, i2⟩ := foldl_inv_mem P Q f l (f b x) h1 (fun b a ha => hstep b a (List.mem_cons_of_mem _ ha))
+      (fun b a a' ha' => hmono b a a' (List.mem_cons_of_mem _ ha'))
+    refine ⟨i1, ?_⟩
+    intro a ha
+    rcases List.mem_cons.mp ha with rfl | ha
+    · exact hgen l (f b a) (fun a ha => List.mem_cons_of_mem _ ha) h1 h2
+    · exact i2 a ha
+
+theorem clearVirtual_mem : ∀ (vo : List (Nat × Option Nat)) (ops : List POp) (p : POp), p ∈ clearVirtual ops vo →
+    ∃ p' ∈ ops, p.info = p'.info ∧ p.ignored = p'.ignored ∧ p.placeholder = p'.placeholder ∧ p.inputs = p'.inputs ∧
+      p.intermediates = p'.intermediates ∧ (p.outputs = p'.outputs ∨ p.outputs = [])
+  | [], ops, p, h => ⟨p, by simpa [clearVirtual] using h, rfl, rfl, rfl, rfl, rfl, Or.inl rfl⟩
+  | v :: vo, ops, p, h => by
+    have h' : p ∈ clearVirtual (match v.2 with
+        | some k => modifyAt ops k (fun o => { o with outputs := [] })
+        | none => ops) vo := h
+    obtain ⟨p1, hp1, a1, a2, a3, a4, a5, a6⟩ := clearVirtual_mem vo _ p h'
+    have hp1' : ∃ p' ∈ ops, p1.info = p'.info ∧ p1.ignored = p'.ignored ∧ p1.placeholder = p'.placeholder ∧ p1.inputs = p'.inputs ∧
+        p1.intermediates = p'.intermediates ∧ (p1.outputs = p'.outputs ∨ p1.outputs = []) := by
+      cases hv : v.2 with
+      | none => simp only [hv] at hp1; exact ⟨p1, hp1, rfl, rfl, rfl, rfl, rfl, Or.inl rfl⟩
+      | some k =>
+        simp only [hv] at hp1
+        unfold modifyAt at hp1
+        cases hk : ops[k]? with
+        | none => simp only [hk] at hp1; exact ⟨p1, hp1, rfl, rfl, rfl, rfl, rfl, Or.inl rfl⟩
+        | some a =>
+          simp only [hk] at hp1
+          rcases List.mem_or_eq_of_mem_set hp1 with hm | he
+          · exact ⟨p1, hm, rfl, rfl, rfl, rfl, rfl, Or.inl rfl⟩
+          · exact ⟨a, List.mem_of_getElem? hk, by rw [he], by rw [he], by rw [he], by rw [he], by rw [he], Or.inr (by rw [he])⟩
+    obtain ⟨p2, hp2, b1, b2, b3, b4, b5, b6⟩ := hp1'
+    refine ⟨p2, hp2, a1.trans b1, a2.trans b2, a3.trans b3, a4.trans b4, a5.trans b5, ?_⟩
+    rcases a6 with a6 | a6
+    · rcases b6 with b6 | b6
+      · exact Or.inl (a6.trans b6)
+      · exact Or.inr (a6.trans b6)
+    · exact Or.inr a6
+
+theorem outputList_spec (outs : List Nat) : ∀ (pos : List Nat) (outs2 : List Nat),
+    outputList (some pos) outs = .ok outs2 → outs2 = pos.filterMap (outs[·]?)
+  | [], outs2, h => by
+    simp [outputList, pure, Except.pure] at h
+    simp [h]
+  | p :: pos, outs2, h => by
+    unfold outputList at h
+    simp only [List.mapM_cons] at h
+    obtain ⟨t, ht, h⟩ := bind_ok h
+    obtain ⟨r, hr, h⟩ := bind_ok h
+    simp only [pure, Except.pure, Except.ok.injEq] at h
+    subst h
+    have ih := outputList_spec outs pos r (by unfold outputList; exact hr)
+    cases ho : outs[p]? with
+    | none => simp [ho, throw, throwThe, MonadExceptOf.throw] at ht
+    | some t' =>
+      simp [ho, pure, Except.pure] at ht
+      subst ht
+      simp [ho, ih]
+
+theorem specOuts2_eq (ps : PSub) (outs2 : List Nat) (h : outputList ps.sg.originalOutputPositions (sgOuts ps) = .ok outs2) :
+    specOuts2 ps = outs2 := by
+  unfold specOuts2
+  cases hp : ps.sg.originalOutputPositions with
+  | none =>
+    rw [hp] at h
+    simp [outputList, pure, Except.pure] at h
+    simpa [sgOuts] using h
+  | some pos =>
+    rw [hp] at h
+    exact (outputList_spec _ pos outs2 h).symm
+
 end VelaVerif.Tflite.Spec
